@@ -388,6 +388,8 @@ impl Check for C05 {
         ctx.judge(lp, |c, r, o| self.oracle(c, r, o))?;
         let sp: Vec<Case> = super::evalorder::SELF_TARGET_PROGRAMS.iter().map(|p| Case::new(p.to_string(), 8, "targets, indices or bounds that reach the container being assigned".to_string())).collect();
         ctx.judge(sp, |c, r, o| self.oracle(c, r, o))?;
+        let sr: Vec<Case> = super::evalorder::SELF_READ_PROGRAMS.iter().map(|p| Case::new(p.to_string(), 8, "an index, key or bound read through an alias of the container it is applied to".to_string())).collect();
+        ctx.judge(sr, |c, r, o| self.oracle(c, r, o))?;
         let bc = build_cases();
         let n_build = bc.len();
         ctx.judge(bc, |c, r, o| self.oracle(c, r, o))?;
